@@ -313,6 +313,10 @@ func (cx *Cx) litDecls() []string {
 		for i := 0; i < len(s); i++ {
 			out = append(out, fmt.Sprintf("(assert (= (s_at %s %s) %s))", n, cx.num(int64(i)), cx.num(int64(s[i]))))
 		}
+		if s == "" {
+			// the empty string is the only string of length 0 (x != "" and len(x) > 0 are the same test)
+			out = append(out, fmt.Sprintf("(assert (forall ((s Str)) (! (=> (= (s_len s) %s) (= s %s)) :pattern ((s_len s)))))", cx.num(0), n))
+		}
 	}
 	// distinct literals of equal length are different strings: follows from bytes; literals of different length: from s_len.
 	return out
